@@ -1,6 +1,8 @@
 """C14 — a damaged directory entry affects only that entry."""
 from __future__ import annotations
 
+import os
+
 import fam_akai as FA
 import fam_e2e as E
 import gen_akai as G
@@ -91,6 +93,21 @@ def run_case(rep: Report, cases, ctx, rng, img, disc, k, pos, val, base_files, b
             return
 
 
+_ROLAND_BASE = b""
+
+
+def _roland_damage_task(t):
+    """worker: export + ls of the base Roland image with one byte replaced."""
+    rname, roff, pos, val = t
+    dmg = bytearray(_ROLAND_BASE)
+    dmg[roff + pos] = val
+    with E.Scratch() as s:
+        p = s.write("d.img", bytes(dmg))
+        files, exported, err = E.export_real(p)
+        out, lerr = E.ls_real(p, "V/P")
+    return files, exported, err, out, lerr
+
+
 def roland_sweep(ctx, rep: Report, cases, rng, full: bool):
     """damage one sample's 32-byte directory record / 48-byte parameter record; the other samples of the
     performance must keep their names and audio."""
@@ -110,19 +127,38 @@ def roland_sweep(ctx, rep: Report, cases, rng, full: bool):
             continue
         k = rng.randrange(ns)
         regions = [("dir", GR.DIR["samp"] + 32 * k, 32), ("par", GR.PAR["samp"][0] + 48 * k, 48)]
+        # the damaged images of one base image are independent: the real tool runs on them in forked workers
+        tasks = []
         for rname, roff, rlen in regions:
             for pos in range(rlen):
                 vals = range(0, 256, 1 if full and vi == 0 else 37) if full else sorted({0, 0xFF, rng.randrange(256), rng.randrange(256)})
                 for val in vals:
-                    if img[roff + pos] == val:
-                        continue
+                    if img[roff + pos] != val:
+                        tasks.append((rname, roff, pos, val))
+        global _ROLAND_BASE
+        _ROLAND_BASE = img
+        results = {}
+        if len(tasks) > 400:
+            import multiprocessing as mp
+
+            with mp.get_context("fork").Pool(min(14, os.cpu_count() or 2)) as pool:
+                for t, r in zip(tasks, pool.imap(_roland_damage_task, tasks, chunksize=16)):
+                    results[t] = r
+        for rname, roff, pos, val in tasks:
                     dmg = bytearray(img)
                     dmg[roff + pos] = val
-                    with E.Scratch() as s:
+                    key = (rname, roff, pos, val)
+                    with_model = ctx.model_available and (rep.features.get("roland_damaged_images", 0) % (61 if full else 17)) == 0
+                    if key in results and not with_model:
+                        files, exported, err, out, lerr = results[key]
+                    else:
+                      with E.Scratch() as s:
                         p = s.write("d.img", bytes(dmg))
-                        files, exported, err = E.export_real(p)
-                        out, lerr = E.ls_real(p, "V/P")
-                        with_model = ctx.model_available and (rep.features.get("roland_damaged_images", 0) % (61 if full else 17)) == 0
+                        if key in results:
+                            files, exported, err, out, lerr = results[key]
+                        else:
+                            files, exported, err = E.export_real(p)
+                            out, lerr = E.ls_real(p, "V/P")
                         if with_model:
                             res, _, _, _ = FA.export_str(p)
                             ls_res = FA.ls_str(p, "V/P")
